@@ -74,14 +74,17 @@ theorem Layer.chain_nil (μ : Measure X) (c : C) : Layer μ (Chain.mk ([] : List
     rw [e, Measure.map_id]
     simp [Chain.toBij, Chain.ild_nil]
 
+omit [MeasurableSpace X] in
 theorem Chain.ild_single (b : Bij X C ℝ) (y : X) (c : C) :
     (Chain.mk [b]).inverse_and_log_det y c = ((b.invLd y c).1, (b.invLd y c).2) := by
   simp [Chain.inverse_and_log_det, Jnp.sumElem]
 
+omit [MeasurableSpace X] in
 theorem Chain.tld_single (b : Bij X C ℝ) (x : X) (c : C) :
     (Chain.mk [b]).transform_and_log_det x c = ((b.fwdLd x c).1, (b.fwdLd x c).2) := by
   simp [Chain.transform_and_log_det, Jnp.sumElem]
 
+omit [MeasurableSpace X] in
 /-- the three methods of `Chain(bs ++ [b])` the layer facts look at, in terms of `Chain(bs)` and `b` -/
 theorem Chain.snoc_facts (bs : List (Bij X C ℝ)) (b : Bij X C ℝ) (c : C)
     (hb : ∀ y, (b.invLd y c).1 = b.inv y c) :
@@ -110,6 +113,7 @@ theorem Layer.chain {μ : Measure X} {c : C} (bs : List (Bij X C ℝ)) (h : ∀ 
 /-- `Invert(b)` as a record -/
 def invB (b : Bij X C ℝ) : Bij X C ℝ := (Invert.mk b).toBij
 
+omit [MeasurableSpace X] in
 /-- `Invert(Chain[b₁,…,b_k])` computes the same methods as `Chain[Invert b_k,…,Invert b₁]` -/
 theorem invert_chain_equiv (bs : List (Bij X C ℝ)) :
     (Invert.mk (Chain.mk bs).toBij).toBij.Equiv (Chain.mk (bs.reverse.map invB)).toBij := by
